@@ -541,6 +541,8 @@ def run(ctx):
                       int(rng.integers(0, 5))) for _ in range(ncol)]
         bc = float(rng.choice([40, 50, 60, 75, 90, float(rng.uniform(40, 99))]))
         wc = float(min(99.9, bc + rng.uniform(0.5, 100 - bc))) if bc < 99 else 99.9
+        if it % 6 == 1:
+            wc = 100.0
         if nrow > 0:
             run_box_case(ctx, {"kind": "box", "cols": cols, "box": bc, "whisk": wc})
         # grouped
